@@ -597,6 +597,8 @@ CROSS_ROWS = [
     ("HETATM", 4, "MG", None, "MG", "B", 301, None, 4.0, 5.0, 6.0, 1.0, 12.0, "MG", "2+", 1),
     ("HETATM", 5, "CL", None, "CL", "B", 302, None, -4.0, -5.0, -6.0, 0.75, 13.0, "CL", "1-", 1),
     ("ATOM", 6, "P", None, "G", "A", -2, None, 1.75, -2.5, 30.25, 1.0, 21.5, "P", None, 2),
+    # values that are valid and false as booleans: occupancy 0.00 (modelled, unobserved atoms), B 0.00, the origin, residue number 0
+    ("ATOM", 7, "N1", None, "A", "A", 0, None, 0.0, 0.0, 0.0, 0.0, 0.0, "N", None, 2),
 ]
 PDB_FIELDS = ["record_type", "serial", "name", "altLoc", "resName", "chainID", "resSeq", "iCode", "x", "y", "z", "occupancy", "tempFactor", "element", "charge", "model"]
 TOL = {"x": 0.0005, "y": 0.0005, "z": 0.0005, "occupancy": 0.005, "tempFactor": 0.005}  # the rows carry 3 resp. 2 decimals: they come back as written
